@@ -609,12 +609,9 @@ class NDCubeBase(NDCubeABC, astropy.nddata.NDData, NDCubeSlicingMixin):
         if no_op:
             return tuple([slice(None)] * self.data.ndim)
         else:
-            comp = [c[0] for c in wcs.world_axis_object_components]
-            # Trim to unique component names - `np.unique(..., return_index=True)
-            # keeps sorting alphabetically, set() seems just nondeterministic.
-            for k, c in enumerate(comp):
-                if comp.count(c) > 1:
-                    comp.pop(k)
+            # Unique component names in order of first occurrence: the order of the
+            # high-level objects of the WCS.
+            comp = utils.misc.unique_sorted(c[0] for c in wcs.world_axis_object_components)
             classes = [wcs.world_axis_object_classes[c][0] for c in comp]
             for i, point in enumerate(points):
                 if len(point) != len(comp):
